@@ -19,7 +19,8 @@ RULE = ('Hypothesis RuleBasedStateMachine: @initialize draws a document (profile
         'measure-structured score) and imports it; up to 12 rules are then applied to the SAME Document object, drawn '
         'from: dumps with arbitrary options (spine ids/types, include/exclude as list/set/tuple - including the module '
         'constant BEKERN_CATEGORIES itself -, six encodings, legal and illegal measure ranges), Exporter.export_string '
-        'with a caller-owned ExportOptions object reused across calls, get_all_tokens / get_unique_tokens / '
+        'with a caller-owned ExportOptions object AND one Exporter object reused across calls (followed by that '
+        'Exporter\'s get_spine_types), get_all_tokens / get_unique_tokens / '
         'get_all_tokens_encodings / get_unique_token_encodings / frequencies with filters, get_metacomments (key, '
         'clear), spine_types, is_monophonic, list(doc), next(doc), zip(doc, doc), an abandoned iteration, measures_count, '
         'get_first_measure, get_spine_ids, '
@@ -71,6 +72,8 @@ def ops(draw):
             o['from_measure'] = draw(st.integers(-1, 5))
         if draw(st.integers(0, 2)) == 0:
             o['to_measure'] = draw(st.integers(-1, 6))
+        if name == 'export_options' and draw(st.integers(0, 2)) == 0:
+            o['reset'] = True  # the caller sets the measure range of the reused options object back to None
     elif name == 'dumps_variant':
         # the previous dumps call of this history again, with ONE option changed (resolved when applied)
         o['change'] = draw(st.sampled_from(['spine_ids_empty', 'spine_ids_empty', 'spine_ids_empty', 'spine_ids_none', 'spine_ids_none', 'to_plus', 'to_plus',
@@ -154,9 +157,19 @@ def apply(doc, o, state):
                 opts.to_measure = kw['to_measure']
             if 'include' in kw:
                 opts.token_categories = TC.valid(include=kw['include'], exclude=kw.get('exclude'))
+            if o.get('reset'):
+                if 'from_measure' not in kw:
+                    opts.from_measure = None
+                if 'to_measure' not in kw:
+                    opts.to_measure = None
+            # the Exporter object is reused as well (an Exporter is a service without memory)
+            ex = state.get('exporter')
+            if ex is None:
+                ex = state['exporter'] = kp.Exporter()
             before = repr(sorted((k, sorted(v, key=repr) if isinstance(v, (set, frozenset)) else v) for k, v in vars(opts).items()))
             try:
-                r = kp.Exporter().export_string(doc, opts)
+                r = ex.export_string(doc, opts)
+                r = [r, ex.get_spine_types(doc), ex.get_spine_types(doc, ['**kern'])]
             finally:
                 after = repr(sorted((k, sorted(v, key=repr) if isinstance(v, (set, frozenset)) else v) for k, v in vars(opts).items()))
                 if before != after:
@@ -309,7 +322,9 @@ class Session:
         if o['op'] == 'export_options':
             opts = self.state['options']
             try:
-                ref2 = kp.Exporter().export_string(fresh_doc, opts)
+                ex_ = kp.Exporter()
+                ref2 = ex_.export_string(fresh_doc, opts)
+                ref2 = [ref2, kp.Exporter().get_spine_types(fresh_doc), kp.Exporter().get_spine_types(fresh_doc, ['**kern'])]
             except Exception as e:  # noqa
                 ref2 = ['EXC', type(e).__name__, str(e)]
             if got != ref2:
